@@ -8,6 +8,7 @@ StepAct ==
   \/ Is("ntpmap") /\ NtpMap(Ev.rtp, Ev.t)
   \/ Is("ntpget") /\ NtpGet(Ev.rtp, Ev.t, Ev.rem)
   \/ Is("ntpinv") /\ NtpInv(Ev.diff)
+  \/ Is("ntpe2e") /\ NtpE2E(Ev.known, Ev.diffms)
   \/ Is("end")    /\ UNCHANGED tvarsA
 Next == TraceNext(ResetAct, StepAct, UNCHANGED tvarsA)
 Init == TraceInit /\ TInit
